@@ -328,6 +328,9 @@ def strategies():
                 st.just(["b"]), st.just(["b"]),
                 st.builds(lambda lo, w: ["i", lo, lo + w], st.integers(-4, 3), st.integers(0, 5)),
                 st.builds(lambda lo: ["i", lo, lo], st.integers(-6, 6)),
+                # small domains far from zero (values outside CPython's small-int cache)
+                st.builds(lambda lo, w: ["i", lo, lo + w], st.sampled_from([254, 255, 300, 1000, -7, -40, -300]),
+                          st.integers(0, 3)),
             )
         return st.one_of(
             st.just(["b"]),
